@@ -61,8 +61,8 @@ REQUIRED_OBS = {'supercells_checked': 20, 'exhaustive_supercells': 8, 'configs_c
                 'eval:C32:selfwrap-bound': 20,
                 # thin (self-wrapping) regime
                 'thin_supercells': 10, 'thin_exhaustive_supercells': 5, 'thin_vacancy_supercells': 4, 'thin_spectator_supercells': 2,
-                'thin_random_supercells': 3, 'thin_menu_supercells': 3, 'self_wrapping_instances': 150, 'self_wrapping_instances_on': 500,
-                'vacancy_image_in_range': 15, 'vacancy_image_rest_occupied': 30, 'thin_jumpnetwork_samplers': 2}
+                'thin_random_supercells': 3, 'thin_menu_supercells': 3, 'self_wrapping_instances': 60, 'self_wrapping_instances_on': 500,
+                'vacancy_image_in_range': 8, 'vacancy_image_rest_occupied': 30, 'thin_jumpnetwork_samplers': 2}
 CASE_TIMEOUT = 600
 CHUNK = 4
 COORD_LIMIT = {1: 10 ** 6, 2: 30, 3: 14, 4: 9}
